@@ -629,11 +629,11 @@ def _search_angles(
     traveltimes = lookup_table[:, 2][closest_ray]
 
     return (
-        _numpy.asfarray(angles),
+        _numpy.asarray(angles, dtype=float),
         converged,
-        _numpy.asfarray(distance_to_closest_ray),
-        _numpy.asfarray(angles_og),
-        _numpy.asfarray(traveltimes),
+        _numpy.asarray(distance_to_closest_ray, dtype=float),
+        _numpy.asarray(angles_og, dtype=float),
+        _numpy.asarray(traveltimes, dtype=float),
         lookup_table,
     )
 
